@@ -51,6 +51,7 @@ pub fn gen_frag_cfg(r: &mut Rng, o: &FragOpts) -> (FragCfg, Option<av1::SeqHdr>)
     } else {
         *r.pick(&[(1920u32, 1080u32), (640, 480), (16, 16), (65_535, 65_535), (3840, 2160)])
     };
+    let (w, h) = if r.chance(1, 3) && (w, h) != (0, 0) && w <= 65_535 && h <= 65_535 { (r.any_dim(), r.any_dim()) } else { (w, h) };
     let mut c = FragCfg {
         vcodec,
         width: w,
